@@ -2,7 +2,9 @@
 from __future__ import annotations
 
 import ast
+from dataclasses import dataclass
 
+from ..absint import TOP, Const, DictV, Domain, Interp, Obj, Tup
 from ..repo import calls_in, dotted, norm_src, walk_no_nested
 from ..match import Matcher, src as msrc
 from .common import kwarg, need_funcs
@@ -16,6 +18,95 @@ def _strlist(e):
     if isinstance(e, (ast.List, ast.Tuple)) and all(isinstance(x, ast.Constant) and isinstance(x.value, str) for x in e.elts):
         return [x.value for x in e.elts]
     return None
+
+
+@dataclass(frozen=True)
+class Base:
+    name: str
+    f32: bool = False
+
+
+@dataclass(frozen=True)
+class Col:
+    base: Base
+    idx: int
+
+
+class ColDom(Domain):
+    """Which array column ends up under which key of the table built by to_dataframe."""
+    name = "COL"
+
+    def __init__(self):
+        self.frames = []
+
+    def const(self, interp, value, node):
+        return Const(value)
+
+    def seed_param(self, interp, fn, arg):
+        return TOP
+
+    def seed_field(self, interp, obj, name, node):
+        if name in ("_pos", "pos"):
+            return Base("pos")
+        if name == "_features":
+            return Base("features")
+        return TOP
+
+    def attr(self, interp, val, name, node):
+        if isinstance(val, Obj) and name == "pos":
+            return Base("pos")
+        return NotImplemented
+
+    def call_repo(self, interp, funcs, bound, args, kwargs, node):
+        names = {f.name for f in funcs}
+        if names & {"rotvec"}:
+            return Base("rotvec")
+        if names & {"pos"}:
+            return Base("pos")
+        return NotImplemented
+
+    def call_external(self, interp, name, recv, args, kwargs, node):
+        last = (name or "").rsplit(".", 1)[-1]
+        if last == "astype" and isinstance(recv, Base):
+            return Base(recv.name, "float32" in ast.unparse(node))
+        if last == "DataFrame":
+            self.frames.append((args, kwargs))
+            return Base("df")
+        if last == "with_columns" and isinstance(recv, Base):
+            self.frames.append(("with_columns", args))
+            return recv
+        return TOP
+
+    def subscript(self, interp, val, index_node, index_val, node):
+        if isinstance(val, Base) and isinstance(index_node, ast.Tuple) and len(index_node.elts) == 2 and isinstance(index_val, Tup):
+            j = index_val.items[1]
+            if isinstance(j, Const) and isinstance(j.value, int):
+                return Col(val, j.value)
+        if isinstance(val, Tup) and isinstance(index_val, Const) and isinstance(index_val.value, int):
+            return val.items[index_val.value]
+        return NotImplemented
+
+    def binop(self, interp, op, l, r, node):
+        if isinstance(l, Const) and isinstance(r, Const) and isinstance(l.value, int) and isinstance(r.value, int):
+            if isinstance(op, ast.Sub):
+                return Const(l.value - r.value)
+            if isinstance(op, ast.Add):
+                return Const(l.value + r.value)
+        return TOP
+
+    def compare(self, interp, node, vals):
+        if len(vals) == 2 and all(isinstance(v, Const) and isinstance(v.value, int) for v in vals):
+            a, b = vals[0].value, vals[1].value
+            return Const({ast.Lt: a < b, ast.LtE: a <= b, ast.Gt: a > b, ast.GtE: a >= b, ast.Eq: a == b, ast.NotEq: a != b}[type(node.ops[0])])
+        return TOP
+
+    def truth(self, interp, val):
+        if isinstance(val, Const) and isinstance(val.value, bool):
+            return val.value
+        return None
+
+    def join(self, interp, a, b):
+        return a if a == b else TOP
 
 
 def passthrough_clause(model, rep, funcs):
@@ -74,37 +165,30 @@ def check(model, rep, tier):
     # writer table
     f = funcs.get(MC + "to_dataframe")
     if f is not None:
-        dicts = [c.args[0] for c in calls_in(f) if (dotted(c.func) or "").endswith("DataFrame") and c.args and isinstance(c.args[0], ast.Dict)]
+        # the table handed to pl.DataFrame is evaluated by the interpreter (dict literal, loops over _CSV_COLUMNS, ... all give the same abstract dict)
         rep.instance("S10", f.loc())
-        ok = len(dicts) == 1
-        det = ""
+        dom = ColDom()
+        Interp(model, dom, depth=0).run(f)
+        tables = [a[0] for a, kw in [fr for fr in dom.frames if fr[0] != "with_columns"] if a and isinstance(a[0], DictV)]
+        ok = len(tables) == 1
+        det = f"{len(tables)} table(s) built"
         if ok:
-            d = dicts[0]
-            keys = [k.value if isinstance(k, ast.Constant) else None for k in d.keys]
+            cols = tables[0].items
+            keys = list(cols.keys())
             ok = keys == csv_cols
             det = f"keys {keys}"
+            for k in keys:
+                v = cols[k]
+                want_base = Base("pos") if k in ("z", "y", "x") else Base("rotvec", True)
+                want_idx = {"z": 0, "y": 1, "x": 2, "zvec": 0, "yvec": 1, "xvec": 2}.get(k)
+                if not (isinstance(v, Col) and v.base == want_base and v.idx == want_idx):
+                    ok = False
+                    det += f"; column `{k}` is written from {v!r} (expected {want_base.name}{' as float32' if want_base.f32 else ''}[:, {want_idx}])"
             MT = Matcher(f)
-            for k, v in zip(keys, d.values):
-                if not (isinstance(v, ast.Subscript) and isinstance(v.slice, ast.Tuple) and len(v.slice.elts) == 2):
-                    ok = False
-                    det += f"; `{k}` is not a column slice"
-                    continue
-                col = norm_src(v.slice.elts[1])
-                base = norm_src(v.value)
-                exp_idx = {"z": "0", "y": "1", "x": "2", "zvec": "0", "yvec": "1", "xvec": "2"}.get(k)
-                exp_base = ("self.pos", "self._pos") if k in ("z", "y", "x") else ("self.rotvec().astype(np.float32)",)
-                base = norm_src(MT.expr(v.value))
-                if col != exp_idx or base not in exp_base:
-                    ok = False
-                    det += f"; column `{k}` is written from {norm_src(v)} (expected {exp_base[0]}[:, {exp_idx}])"
-            # features appended after the six columns
             wc = [c for c in calls_in(f) if isinstance(c.func, ast.Attribute) and c.func.attr == "with_columns"]
             if not (len(wc) == 1 and MT.all_of(["$df = pl.DataFrame($$d)", "$df = $df.with_columns(list(self._features))", "return $df"])[0]):
                 ok = False
                 det += "; features are not appended with df.with_columns(list(self._features))"
-            if "astype" in norm_src(d):
-                ok = False
-                det += "; positions/rotations are cast inside the table"
         rep.ob("S10", f.anchor, "to_dataframe writes pos[:, 0..2] as z, y, x and rotvec[:, 0..2] (float32) as zvec, yvec, xvec, then the features", ok, det,
                node=f.node, fn=f, clause="layout", stmt="def to_dataframe table")
     # reader defaults
